@@ -873,6 +873,11 @@ impl XmlAttributeValue {
                         // refers to it).
                         Err(e) => context.declared_entity(v, parent_id).ok_or(e)?,
                     };
+                    check_entity_reference(&entity, true, &|n| {
+                        context
+                            .entity(n)
+                            .or_else(|e| context.declared_entity(n, parent_id).ok_or(e))
+                    })?;
                     let entity =
                         XmlUnexpandedEntityReference::node(entity, Some(parent_id), context);
                     Ok(Some(XmlAttributeValue::Entity(entity)))
@@ -2443,6 +2448,7 @@ impl XmlElement {
                         }
                         parser::Reference::Entity(v) => {
                             let entity = context.entity(v)?;
+                            check_entity_reference(&entity, false, &|n| context.entity(n))?;
                             let entity =
                                 XmlUnexpandedEntityReference::node(entity, element_id, context);
                             element.borrow_mut().push_child(entity);
@@ -4367,6 +4373,93 @@ fn attr_value_from_name(name: &str, context: &Context) -> error::Result<String> 
 /// With `in_attribute` the inclusion follows XML 1.0 3.3.3: every white space character of a
 /// replacement text becomes a space. That covers a character written as a character reference
 /// in the entity value, because it is a literal character of the replacement text (4.5).
+/// Well-formedness constraints on a reference to the general entity `entity` (XML 1.0 4.1,
+/// 3.1): it and every entity its replacement text refers to must be declared (Entity Declared)
+/// and parsed (Parsed Entity), and none may refer to itself (No Recursion); inside an attribute
+/// value none may be external (No External Entity References) and no replacement text may
+/// contain `<` (No < in Attribute Values).  Every entity is visited once.
+fn check_entity_reference(
+    entity: &XmlNode<XmlEntity>,
+    in_attribute: bool,
+    resolve: &dyn Fn(&str) -> error::Result<XmlNode<XmlEntity>>,
+) -> error::Result<()> {
+    fn visit(
+        entity: &XmlNode<XmlEntity>,
+        in_attribute: bool,
+        resolve: &dyn Fn(&str) -> error::Result<XmlNode<XmlEntity>>,
+        open: &mut Vec<String>,
+        done: &mut Vec<String>,
+    ) -> error::Result<()> {
+        let entity = entity.borrow();
+        let name = entity.name();
+        if entity.parent_id().is_none() {
+            // predefined entity (lt, gt, amp, apos, quot)
+            return Ok(());
+        }
+        if done.iter().any(|v| v == name) {
+            return Ok(());
+        }
+        if open.iter().any(|v| v == name) {
+            return Err(error::Error::InvalidData(format!(
+                "entity '{}' refers to itself",
+                name
+            )));
+        }
+        if entity.notation_name().is_some() {
+            return Err(error::Error::InvalidData(format!(
+                "reference to the unparsed entity '{}'",
+                name
+            )));
+        }
+        let values = match entity.values() {
+            Some(values) => values,
+            None if in_attribute => {
+                return Err(error::Error::InvalidData(format!(
+                    "reference to the external entity '{}' in an attribute value",
+                    name
+                )));
+            }
+            None => return Ok(()),
+        };
+
+        open.push(name.to_string());
+        for value in values {
+            match value {
+                XmlEntityValue::Character(v, r) => {
+                    let c = match r {
+                        10 => char_from_char10(v)?,
+                        16 => char_from_char16(v)?,
+                        _ => unreachable!(),
+                    };
+                    if in_attribute && c == '<' {
+                        return Err(error::Error::InvalidData(format!(
+                            "'<' in the replacement text of '{}' in an attribute value",
+                            name
+                        )));
+                    }
+                }
+                XmlEntityValue::Entity(v) => {
+                    visit(&resolve(v)?, in_attribute, resolve, open, done)?;
+                }
+                XmlEntityValue::Parameter(_) => {}
+                XmlEntityValue::Text(v) => {
+                    if in_attribute && v.contains('<') {
+                        return Err(error::Error::InvalidData(format!(
+                            "'<' in the replacement text of '{}' in an attribute value",
+                            name
+                        )));
+                    }
+                }
+            }
+        }
+        open.pop();
+        done.push(name.to_string());
+        Ok(())
+    }
+
+    visit(entity, in_attribute, resolve, &mut vec![], &mut vec![])
+}
+
 fn entity_value_from_name(
     name: &str,
     context: &Context,
